@@ -348,6 +348,8 @@ def unescape(text):
 
 
 def dbl_bits(x):
+    if isinstance(x, str) and x.startswith('-+'):
+        x = '-' + x[2:]            # the IDL grammar lets a `+` follow the `-`: -(+x)
     return struct.unpack('>Q', struct.pack('>d', float(x)))[0]
 
 
@@ -432,10 +434,14 @@ def lit_value(sch, ty, lit, doc):
 def is_const_default(sch, ty, lit, ann, top=False):
     """model of the `is_const` flag of Context::lit_as_rvalue / lit_into_ty (middle/context.rs)"""
     k = lit[0]
+    if ann.get('pilota.rust_wrapper_arc') == 'true':
+        return False               # Arc::new(..) (or a container, never const anyway)
     if sch.through_typedef(ty):
         return is_const_default(sch, sch.types[ty[1]]['ty'], lit, {}, top=False)
     t = ty
     if k == 'id':
+        if t[0] in ('list', 'set', 'map'):
+            return False           # a const of container type is lowered from its literal
         # ident_into_ty: `K.to_string()` for a string const at a `pilota.rust_type = "string"` field is not const
         return not (t[0] == 'string' and ann.get('pilota.rust_type') == 'string')
     if t[0] == 'map':
@@ -1117,7 +1123,105 @@ def corpus():
         Union('EvoUn', [F(1, 'i', 'i32'), F(2, 's', 'string'), F(3, 'sub', R('Sub')), F(4, 'l', L('string'))]),
         Struct('EvoHolder', [F(1, 'u', R('EvoUn'), 'optional'), F(2, 'lu', L(R('EvoUn'))), F(3, 'e', R('Evo'), 'optional'), F(4, 'tail', 'string')]),
     ], includes=['inc'], style=0))
+    present = repairs_present()
+    docs += [d for n, d in repair_docs() if n in present]
     return docs
+
+
+# ------------------------------------------------------------------ documents that need a repair of the generator
+#
+# Default shapes on which the literal lowering of the pinned generator panicked, each with the repair proposed in
+# fam/gen/patches/<name>.diff.  A document is part of the corpus iff its repair is in the working tree (a decidable test on
+# the source text, the same the translator tools/extract_gen.py makes); otherwise pv/props/c20.py runs the generator on
+# it alone and reports the panic as the known finding of class <name>.
+
+REPAIR_MARKERS = {
+    'arc-field-default': r'\(l,\s*CodegenTy::Arc\(inner_ty\)\)\s*=>',
+    'container-const-reference': r'return\s+self\.lit_as_rvalue\(&c\.lit,\s*ty\);',
+    'double-sign-run': r'fn\s+parse_double\s*\(',
+}
+
+
+def repairs_present():
+    import os
+    from . import core
+    try:
+        src = open(os.path.join(core.REPO, 'pilota-build', 'src', 'middle', 'context.rs'), encoding='utf-8').read()
+    except OSError:
+        return set()
+    return set(n for n, rx in REPAIR_MARKERS.items() if re.search(rx, src))
+
+
+def repair_docs():
+    """[(class / patch name, Doc)]; every document stands alone (no includes)"""
+    out = []
+    # a default on a `pilota.rust_wrapper_arc` field (plain / split only: struct literals and keep builds, F-14d)
+    out.append(('arc-field-default', Doc('darc', [
+        Struct('P', [F(1, 'note', 'string'), F(2, 'n', 'i32', 'required')]),
+        Typedef('P2', R('P')),
+        Const('KS', 'string', Str('k')), Const('KP', R('P'), LM((Str('note'), Str('c')), (Str('n'), I(2)))),
+        Struct('ArcD', [
+            F(1, 'p', R('P'), 'default', LM((Str('note'), Str('x')), (Str('n'), I(1))), rust_wrapper_arc='true'),
+            F(2, 'rp', R('P'), 'required', LM((Str('n'), I(3))), rust_wrapper_arc='true'),
+            F(3, 's', 'string', 'default', Str('lit'), rust_type='string', rust_wrapper_arc='true'),
+            F(4, 'sc', 'string', 'required', Id('KS'), rust_type='string', rust_wrapper_arc='true'),
+            F(5, 'lp', L(R('P')), 'default', LL(LM((Str('n'), I(4))), LM((Str('n'), I(5)), (Str('note'), Str('y')))), rust_wrapper_arc='true'),
+            F(6, 'mp', M('string', R('P')), 'optional', LM((Str('a'), LM((Str('n'), I(6))))), rust_wrapper_arc='true'),
+            F(7, 'pc', R('P'), 'default', Id('KP'), rust_wrapper_arc='true'),
+            F(8, 'tp', R('P2'), 'default', LM((Str('n'), I(7))), rust_wrapper_arc='true'),
+            F(9, 'nod', R('P'), 'optional', rust_wrapper_arc='true'),
+        ]),
+    ], style=0, configs=('plain', 'split'))))
+    # a reference to a const of list / set / map type
+    out.append(('container-const-reference', Doc('dcref', [
+        Typedef('IntList', L('i32')),
+        Const('KL', L('i32'), LL(I(1), I(2))), Const('KSET', S('string'), LL(Str('a'))), Const('KM', M('string', 'i32'), LM((Str('k'), I(1)))),
+        Const('KLS', L('string'), LL(Str('x'), Str('y'))), Const('KSD', S('double'), LL(I(1), D('2.5'))),
+        Const('KLL', L(L('i32')), LL(Id('KL'), LL(I(3)))), Const('KLSET', L(S('string')), LL(Id('KSET'))),
+        Struct('CRef', [
+            F(1, 'l', L('i32'), 'default', Id('KL')), F(2, 's', S('string'), 'required', Id('KSET')),
+            F(3, 'm', M('string', 'i32'), 'optional', Id('KM')), F(4, 'ls', L('string'), 'default', Id('KLS')),
+            F(5, 'td', R('IntList'), 'default', Id('KL')), F(6, 'll', L(L('i32')), 'default', LL(Id('KL'), LL())),
+            F(7, 'bs', S('string'), 'default', Id('KSET'), rust_type='btree'), F(8, 'sd', S('double'), 'default', Id('KSD')),
+            F(9, 'mv', M('i32', L('i32')), 'default', LM((I(1), Id('KL')))),
+        ]),
+    ], style=1)))
+    # the double constant `-+x`
+    out.append(('double-sign-run', Doc('dsign', [
+        Const('KD', 'double', D('-+2.5')),
+        Struct('Sign', [F(1, 'd', 'double', 'default', D('-+1.5')), F(2, 'e', 'double', 'required', D('-+1e3')),
+                        F(3, 's', S('double'), 'default', LL(D('-+0.5'))), F(4, 'p', 'double', 'default', D('+2.5')),
+                        F(5, 'c', 'double', 'default', Id('KD')), F(6, 'z', 'double', 'default', D('-+0.0'))]),
+    ], style=2)))
+    return out
+
+
+def repair_doc_class(doc):
+    """the decidable class of a document: does it contain the shape that needs the repair?  -> set of class names"""
+    out = set()
+    consts = {it.name: it for it in doc.items if it.kind == 'const'}
+
+    def walk(lit, ty, ann):
+        if ann.get('pilota.rust_wrapper_arc') == 'true':
+            out.add('arc-field-default')
+        if lit[0] == 'dbl' and lit[1].startswith('-+'):
+            out.add('double-sign-run')
+        if lit[0] == 'id' and lit[1] in consts and isinstance(consts[lit[1]].ty, tuple) and consts[lit[1]].ty[0] in ('list', 'set', 'map'):
+            out.add('container-const-reference')
+        if lit[0] == 'list':
+            for x in lit[1]:
+                walk(x, None, {})
+        if lit[0] == 'map':
+            for a, b in lit[1]:
+                walk(a, None, {}); walk(b, None, {})
+    for it in doc.items:
+        if it.kind == 'const':
+            walk(it.lit, it.ty, {})
+        if it.kind == 'struct':
+            for f in it.fields:
+                if f.default is not None:
+                    walk(f.default, f.ty, f.ann)
+    return out
 
 
 def expand_includes(docs):
